@@ -72,6 +72,14 @@ def chunksB : List Bytes := [chunk "B0", chunk "B1"]
 def framesA : List (Frame SC) := writeFrames sym 1 1 chunksA
 def framesB : List (Frame SC) := writeFrames sym 2 2 chunksB
 
+/-- an inserted frame nobody sealed: `z<type>.<n>`; its ciphertext is under a key no reader has -/
+def insertedFrame (tok : String) : Option (Frame SC) :=
+  match (tok.drop 1).toString.splitOn "." with
+  | [t, n] => match t.toNat?, n.toNat? with
+    | some t, some n => some ⟨t, (99, ⟨0, 0, 0⟩, List.replicate n 0)⟩
+    | _, _ => none
+  | _ => none
+
 def baseFrame (tok : List Char) : Option (Frame SC) :=
   match tok with
   | ['a', 'f'] => framesA.getLast?
@@ -87,6 +95,7 @@ def parseScript : List String → Option (List (Frame SC) × Tail)
     match t.toList with
     | ['j'] => some ([], .partialHeader)
     | 't' :: rest => (baseFrame rest).map (fun _ => ([], Tail.partialBody))
+    | 'z' :: _ => (insertedFrame t).map (fun f => ([f], Tail.clean))
     | 'x' :: rest => (baseFrame rest).map (fun f => ([{ f with typ := if f.typ = 0 then 1 else 0 }], Tail.clean))
     | 'y' :: rest => (baseFrame rest).map (fun f => ([{ f with typ := 7 }], Tail.clean))
     | tok => (baseFrame tok).map (fun f => ([f], Tail.clean))
@@ -96,6 +105,7 @@ def parseScript : List String → Option (List (Frame SC) × Tail)
       | 'y' :: rest => (baseFrame rest).map (fun f => { f with typ := 7 })
       | 'j' :: _ => none
       | 't' :: _ => none
+      | 'z' :: _ => insertedFrame t
       | tok => baseFrame tok
     match f?, parseScript ts with
     | some f, some (fs, tail) => some (f :: fs, tail)
